@@ -659,6 +659,47 @@ pub fn exec_slx(toks: &[&str]) -> String {
     }
 }
 
+/// `slxc <g0> <period> [<mode>]`: the scripts of `slx` through the C API: one `clockbound_ctx`, three
+/// `clockbound_now()` calls (first under the scripted writer, second with the generation frozen odd, third with
+/// the generation stable at a new even value). The answer is the class of each call: `ok` or `err <kind>`.
+pub fn exec_slxc(toks: &[&str]) -> String {
+    use crate::ffi;
+    let g0: u64 = toks[1].parse().unwrap();
+    let period: u64 = toks[2].parse::<u64>().unwrap().max(1);
+    let mode: u64 = toks.get(3).map(|t| t.parse().unwrap()).unwrap_or(0);
+    let path = format!("{}/slxc-shm", scratch_dir());
+    write_initial_file(&path, &format!("valid {} 90", if g0 == 0 { 2 } else { g0 }));
+    let c = CString::new(path).unwrap();
+    let mut err: ffi::clockbound_err = unsafe { std::mem::zeroed() };
+    let ctx = unsafe { ffi::clockbound_open(c.as_ptr(), &mut err) };
+    if ctx.is_null() { return "open-failed".into(); }
+    SOLO_G0.store(g0, O::Relaxed); SOLO_PERIOD.store(period, O::Relaxed); SOLO_MODE.store(mode, O::Relaxed);
+    for a in [&SOLO_GEN_LOADS, &SOLO_VER_LOADS, &SOLO_CELL_COPIES, &SOLO_FENCES] { a.store(0, O::Relaxed); }
+    *verif_shim::HOOKS.write().unwrap() = Some(Hooks { load: solo_load, store: solo_store, fence: solo_fence, data_write: solo_data_write, data_read: solo_data_read, point: h_point });
+    // readings far beyond every void-after of the scripted records: the calls are judged by their class only
+    crate::vclock::set(crate::vclock::REALTIME, 1_700_000_000, 0);
+    crate::vclock::set(crate::vclock::MONOTONIC_COARSE, 1_000_000, 0);
+    crate::vclock::enable();
+    let ctx_addr = ctx as usize;
+    let mut call = || -> String {
+        let r = guarded(move || {
+            let mut res: ffi::clockbound_now_result = unsafe { std::mem::zeroed() };
+            let e = unsafe { ffi::clockbound_now(ctx_addr as *mut ffi::clockbound_ctx, &mut res) };
+            if e.is_null() { "ok".to_string() } else { format!("err{}", unsafe { std::ptr::read(&(*e).kind as *const ffi::clockbound_err_kind as *const u32) }) }
+        });
+        r.unwrap_or_else(|_| "unbounded".into())
+    };
+    let r1 = call();
+    SOLO_MODE.store(2, O::Relaxed);
+    let r2 = call();
+    SOLO_MODE.store(4, O::Relaxed);
+    let r3 = call();
+    crate::vclock::disable();
+    *verif_shim::HOOKS.write().unwrap() = None;
+    unsafe { ffi::clockbound_close(ctx_addr as *mut ffi::clockbound_ctx); }
+    format!("{} {} {}", r1, r2, r3)
+}
+
 // ------------------------------------------------------------------ K1: the 16-bit generation ABA, replayed on the real code
 /// `slaba`: a reader is stalled inside ONE snapshot attempt (after its first generation load and three
 /// cell loads) while the real writer completes exactly 32767 updates, which brings the generation back
